@@ -147,15 +147,43 @@ def run(ctx):
                       arm(outer[0][0]) is False, 'the single-cell weight / '
                       f'area weights are not selected by `{Fm}`',
                       ctx.where(mm, one[0][0]))
-    lg = find("if not self.map.name.startswith('L'):\n"
-              "    _v_ = np.log10(_v_)", ex)
-    pw = find("if not self.map.name.startswith('L'):\n"
-              "    _w_ = 10**_w_", ex)
     avg = find(f"_w_ = np.einsum('ij,ijk->k', {imat}, _v_)", ex)
+    lg = find("if _c_:\n    _v_ = np.log10(_v_)", ex)
+    pw = find("if _c_:\n    _w_ = 10**_w_", ex)
     ok = len(lg) == 1 and len(pw) == 1 and len(avg) == 1 and \
+        lg[0][1]['_c_'] == pw[0][1]['_c_'] and \
         lg[0][1]['_v_'] == avg[0][1]['_v_'] and \
         pw[0][1]['_w_'] == avg[0][1]['_w_'] and \
         lg[0][0].lineno < avg[0][0].lineno < pw[0][0].lineno
+    # the condition: logarithmic averaging unless the property is a
+    # logarithm already (mapped property of an Lg*/Ln* map); evaluated over
+    # the map names and mapped / unmapped properties
+    if ok:
+        cnd = lg[0][0].test
+        lpv = [n for n in ast.walk(ex) if isinstance(n, ast.For) and
+               ast.unparse(n.iter) == 'self._def_properties'][0]
+        env_defs = [st for st in lpv.body if isinstance(st, ast.Assign)
+                    and isinstance(st.targets[0], ast.Name) and
+                    st.lineno < lg[0][0].lineno and
+                    'getattr' not in ast.unparse(st.value)]
+        from ..core.tables import FiniteEval as _FE
+        for mname in ('Conductivity', 'LgConductivity', 'LnResistivity'):
+            for prop_, mapped_ in (('property_x', True), ('mu_r', False),
+                                   ('epsilon_r', False)):
+                fe = _FE({'self.map.name': mname, lpv.target.id: prop_,
+                          'self._properties': ['property_x', 'property_y',
+                                               'property_z', 'mu_r',
+                                               'epsilon_r']}, where=mm.rel)
+                for st in env_defs:
+                    fe.env[st.targets[0].id] = fe.ev(st.value)
+                got = bool(fe.ev(cnd))
+                want = not (mapped_ and mname.startswith('L'))
+                ctx.check('C19.L1.average', f'extract_1d: log averaging of '
+                          f'{prop_} under {mname}', got == want,
+                          f'log averaging is {got}; a property is averaged in '
+                          'log space unless it is a logarithm itself (mu_r / '
+                          'epsilon_r are never mapped)', ctx.where(mm, lg[0][0]),
+                          sample={'map': mname, 'property': prop_, 'log': got})
     ctx.check('C19.L1.average', 'extract_1d: log10 / 10** guard pairing',
               ok, 'logarithmic averaging is not applied and undone under the '
               'same condition around the weighted sum', ctx.where(mm, ex))
